@@ -61,6 +61,8 @@ def _chunk_worker(args):
         for opts in variants(prop, case):
             out = run_case(fam.execute, case, opts)
             v = judge(exp, out, strict)
+            if vmod.unclaimed_refusal(opts, v):
+                v = "unspec"
             stats["evals"] += 1
             if v == "ok":
                 stats["ok"] += 1
@@ -287,6 +289,7 @@ def _c19_worker(args):
         if len(samples) < 1:
             samples.append({"case": case, "expected": exp})
         for opts in vmod.variants("C19", case)[-1:]:
+            opts = vmod.safe_opts(opts)
             o64, o32 = dict(opts, width=64), dict(opts, width=32)
             a = run_case(fam.execute, case, o64)
             b = run_case(fam.execute, case, o32)
